@@ -174,10 +174,19 @@ Definition first_word_is_keyword (ws : list (word * exp_mode)) : bool :=
   | (w, _) :: _ => match word_literal w with Some s => is_keyword s | None => false end
   end.
 
+(* the last unit of the word is an unquoted literal [c], or a tilde expansion
+   whose name ends with [c] (a tilde expansion takes the unquoted literals
+   that follow it into its name) *)
+Definition word_ends_with (c : N) (w : word) : bool :=
+  match last w (SingleQuote []) with
+  | Unquoted (Literal c') => c' =? c
+  | Tilde name _ => match rev name with c' :: _ => c' =? c | [] => false end
+  | _ => false
+  end.
+
 (* the last printed word ends with an unquoted backslash (possible only at the
    end of the input) *)
-Definition word_ends_with_backslash (w : word) : bool :=
-  match last w (SingleQuote []) with Unquoted (Literal c) => c =? 92 | _ => false end.
+Definition word_ends_with_backslash (w : word) : bool := word_ends_with 92 w.
 
 Definition ends_with_backslash (a : list assign) (w : list (word * exp_mode)) : bool :=
   match rev w, rev a with
@@ -189,6 +198,13 @@ Definition ends_with_backslash (a : list assign) (w : list (word * exp_mode)) : 
   | [], [] => false
   end.
 
+(* impl_display.rs operand_ends_with_backslash *)
+Definition operand_ends_with_backslash (r : redir) : bool :=
+  match r_body r with
+  | RNormal _ w => word_ends_with_backslash w
+  | RHereDoc d _ _ => word_ends_with_backslash d
+  end.
+
 Definition print_simple (a : list assign) (w : list (word * exp_mode)) (r : list redir) : str :=
   let i1 := map print_assign a in
   let i2 := map (fun x => print_word (fst x)) w in
@@ -196,7 +212,15 @@ Definition print_simple (a : list assign) (w : list (word * exp_mode)) (r : list
   if ends_with_backslash a w then join_map (fun x => x) [32] (i3 ++ i1 ++ i2)
   else if negb (match a with [] => true | _ => false end) || negb (first_word_is_keyword w)
   then join_map (fun x => x) [32] (i1 ++ i2 ++ i3)
-  else join_map (fun x => x) [32] (i3 ++ i2).
+  else
+    match rev r with
+    | last_redir :: (_ :: _) as others =>
+        if operand_ends_with_backslash last_redir
+        then join_map (fun x => x) [32]
+               (map print_redir (rev others) ++ i2 ++ [print_redir last_redir])
+        else join_map (fun x => x) [32] (i3 ++ i2)
+    | _ => join_map (fun x => x) [32] (i3 ++ i2)
+    end.
 
 Definition print_cont (c : case_cont) : str :=
   match c with CcBreak => [59; 59] | CcFallThrough => [59; 38] | CcContinue => [59; 124] end.
@@ -227,7 +251,7 @@ Fixpoint print_command (c : command) : str :=
   | CCompound c r => print_compound c ++ cat_map (fun x => sp :: print_redir x) r
   | CFunction k n c r =>
       (if k then kw "function " else []) ++ print_word n
-      ++ (match last n (SingleQuote []) with Unquoted (Literal 36) => [sp] | _ => [] end)
+      ++ (if word_ends_with 36 n then [sp] else [])
       ++ kw "() "
       ++ print_compound c ++ cat_map (fun x => sp :: print_redir x) r
   end
